@@ -506,8 +506,9 @@ class PDFStandardSecurityHandlerV4(PDFStandardSecurityHandler):
         super().init_params()
         self.length = 128
         self.cf = dict_value(self.param.get("CF"))
-        self.stmf = literal_name(self.param["StmF"])
-        self.strf = literal_name(self.param["StrF"])
+        # both are optional and default to the Identity filter
+        self.stmf = literal_name(self.param.get("StmF", LIT("Identity")))
+        self.strf = literal_name(self.param.get("StrF", LIT("Identity")))
         self.encrypt_metadata = bool(self.param.get("EncryptMetadata", True))
         if self.stmf != self.strf:
             error_msg = "Unsupported crypt filter: param=%r" % self.param
